@@ -8,7 +8,7 @@
     payload bytes and (a superset of) all valid-UTF-8 strings.  Library behaviour enters only as
     an explicit, pointwise hypothesis of the round-trip theorems. *)
 From WM Require Import Base.Prelude Message.Model Value.Model Value.Codec Value.Json Value.ToyCodec
-  Value.EqualsProofs Value.CodecProofs Value.StoreProofs Value.JsonProofs Value.ToyProofs Value.CrossProofs Value.Reuse Value.ReuseProofs Value.Scan Value.ScanProofs.
+  Value.EqualsProofs Value.CodecProofs Value.StoreProofs Value.JsonProofs Value.ToyProofs Value.CrossProofs Value.Reuse Value.ReuseProofs Value.Scan Value.ScanProofs Value.Sorted Value.SortedProofs.
 
 (** * Equals *)
 
@@ -399,6 +399,17 @@ Theorem C16_publisher_roundtrip_closed : forall nu cfg inner_ok dest ms ft ws,
   /\ map (unwrap (jdec_env unframe_std)) ws = map (fun m => Ok (dest, m)) ms.
 Proof. exact publisher_roundtrip_closed. Qed.
 
+(** with map entries written in Go's order (sorted by key, byte-wise) the round trip returns the
+    canonical form of the message: same UUID, payload, nil-ness, metadata lookups *)
+Theorem C16_envelope_roundtrip_sorted : forall nu dest m w, envelope_ok (env_of dest m) ->
+  wrap jenc_sorted nu dest m = Ok w -> unwrap (jdec_env unframe_std) w = Ok (dest, canon_msg m).
+Proof. exact envelope_roundtrip_sorted. Qed.
+Theorem C16_envelope_roundtrip_sorted_same_value : forall nu dest m w, envelope_ok (env_of dest m) ->
+  wrap jenc_sorted nu dest m = Ok w ->
+  exists m', unwrap (jdec_env unframe_std) w = Ok (dest, m') /\ same_value m m'
+    /\ payload m' = payload m /\ (meta m = None <-> meta m' = None).
+Proof. exact envelope_roundtrip_sorted_same_value. Qed.
+
 Print Assumptions C16_equals_iff.
 Print Assumptions C16_equals_iff_refuted.
 Print Assumptions C16_equals_symmetric_refuted.
@@ -455,6 +466,9 @@ Print Assumptions C16_framing_discharged.
 Print Assumptions C16_envelope_roundtrip_closed.
 Print Assumptions C16_envelope_identity.
 Print Assumptions C16_publisher_roundtrip_closed.
+
+Print Assumptions C16_envelope_roundtrip_sorted.
+Print Assumptions C16_envelope_roundtrip_sorted_same_value.
 
 (** * Non-vacuity *)
 
